@@ -127,9 +127,12 @@ def live_slave(rng, host, mode=None):
     modes = ['polled', 'neither'] + (['listening'] if 'listen' in dev['flags'] else [])
     mode = mode if mode in modes else rng.choice(modes)
     poll = rng.choice([10, 30, 60]) if mode == 'polled' else 0
-    return {'enabled': True, 'name': dev['name'], 'scheme': 'http', 'host': host, 'port': 80, 'path': '/',
-            'admin_password_hash': rng.choice([EMPTY_HASH, SOME_HASH]), 'poll_interval': poll, 'listen_enabled': mode == 'listening',
-            'last_sync': -1, 'online': False, 'provisioning': [], 'attrs': dict(dev)}
+    e = {'enabled': True, 'name': dev['name'], 'scheme': 'http', 'host': host, 'port': 80, 'path': '/',
+         'admin_password_hash': rng.choice([EMPTY_HASH, SOME_HASH]), 'poll_interval': poll, 'listen_enabled': mode == 'listening',
+         'last_sync': -1, 'online': False, 'provisioning': [], 'attrs': dict(dev)}
+    if mode == 'polled' and rng.random() < 0.3:
+        del e['listen_enabled']          # as `POST /devices {poll_interval: 30}` leaves it: not stated
+    return e
 
 
 def rstr(rng, maxlen=20):
@@ -423,6 +426,10 @@ def gen_job(rng):
     # expression, which cancels it); only on ports the target leaves enabled and without expression, and only when the whole
     # document is going to be restored (a restore rejected before that port's entry rightly leaves the sequence playing, and the
     # model has no sequences)
+    # a piece of hardware whose read fails at the moment PUT /ports runs (the restore re-reads every remaining port): whatever
+    # the driver raises, it must not make the restore of a valid backup fail, and the switches come back on
+    if hardware and rng.random() < 0.15:
+        rng.choice(hardware)['fault'] = rng.choice(['OSError', 'OSError', 'RuntimeError', 'PortReadError', 'SkipRead', 'TimeoutError'])
     limited = any(op[0] == 'set_setting' for op in job['target'])
     for h in hardware:
         if h['kind'] in ('bool_rw', 'num_rw', 'custom') and rng.random() < 0.2 and not limited:
@@ -463,10 +470,10 @@ SLAVE_DEFECTS = [
     ('polling and listening', lambda e: e.update(poll_interval=10, listen_enabled=True)),
     ('no password', lambda e: e.pop('admin_password_hash')),
     ('same endpoint as entry 0 or 1', None),
-    ('listening asked of a disabled device without the listen flag', lambda e: e.update(listen_enabled=True, attrs={'name': e['name'], 'flags': ['expressions']})),
+    ('listening asked of a disabled device without the listen flag', lambda e: e.update(listen_enabled=True, poll_interval=0, attrs={'name': e['name'], 'flags': ['expressions']})),
     # accepted, with the entry added as a disabled device: an enabled entry whose device does not answer / cannot listen
     ('enabled, device unreachable', lambda e: e.update(enabled=True, host='ghost.local')),
-    ('enabled, listening asked of a device without the listen flag', lambda e: e.update(enabled=True, name='meter', host='meter.local', listen_enabled=True)),
+    ('enabled, listening asked of a device without the listen flag', lambda e: e.update(enabled=True, name='meter', host='meter.local', listen_enabled=True, poll_interval=0)),
     # accepted as live devices
     ('enabled and reachable, sync method unspecified (device can listen)', lambda e: (e.update(enabled=True, name='relay', host='relay.local', poll_interval=0), e.pop('listen_enabled'))),
     ('enabled and reachable, sync method unspecified (device cannot listen)', lambda e: (e.update(enabled=True, name='plain', host='plain.local', poll_interval=0), e.pop('listen_enabled'))),
@@ -489,8 +496,13 @@ def rejection_stream():
                 doc[pos].update(scheme=other['scheme'], host=other['host'], port=other['port'], path=other['path'])
             else:
                 alter(doc[pos])
-            jobs.append({'hardware': [], 'sim': SIM, 'source': [], 'target': target, 'restore': ['devices'],
-                         'mutate': [['devices', ['replace', doc]]], 'mutation_kind': 'devices: %s' % label, 'stream': 'rejection'})
+            job = {'hardware': [], 'sim': SIM, 'source': [], 'target': target, 'restore': ['devices'],
+                   'mutate': [['devices', ['replace', doc]]], 'mutation_kind': 'devices: %s' % label, 'stream': 'rejection'}
+            if label.startswith('enabled,'):          # the device does not answer / cannot listen: kept, as a disabled device
+                job['expect'] = {'devices': {'put': 'ok', 'devices_after': {doc[pos]['name']: False}}}
+            elif label.startswith('enabled and reachable'):
+                job['expect'] = {'devices': {'put': 'ok', 'devices_after': {doc[pos]['name']: True}}}
+            jobs.append(job)
     pbase = [{'driver': MOCK_DRIVER, 'dummy_param': 'a', 'name': 'pa'}, {'driver': MOCK_DRIVER, 'dummy_param': 'b', 'name': 'pb'},
              {'driver': MOCK_DRIVER, 'dummy_param': 'c', 'name': 'pc'}]
     ptarget = [['post_peripheral', {'driver': MOCK_DRIVER, 'dummy_param': 't', 'name': 'pt'}]]
@@ -593,6 +605,26 @@ def oracle(job, res):
                         'after PUT /%s (%s: %s) polling enabled = %s, event delivery enabled = %s (observed: a polling pass ran = %s, a '
                         'triggered event reached a handler = %s)' % (name, put[name][0], json.dumps(put[name][1:])[:160], flags[name][0],
                                                                      flags[name][1], beh[0], beh[1])))
+    # what a job states about its own outcome (stream jobs whose document is altered but must be accepted)
+    for name, want in (job.get('expect') or {}).items():
+        if name in put and want.get('put') == 'ok' and put[name][0] != 'ok':
+            out.append(({'document': name, 'aspect': 'acceptable-document-rejected', 'class': job.get('mutation_kind')},
+                        'PUT /%s must accept this document (%s) but answered %s' % (name, job.get('mutation_kind'), json.dumps(put[name][1:])[:200])))
+        for nm, en in (want.get('devices_after') or {}).items():
+            got = [d for d in res['after'].get('devices', []) if isinstance(d, dict) and d.get('name') == nm]
+            if name in put and put[name][0] == 'ok' and (len(got) != 1 or got[0].get('enabled') is not en):
+                out.append(({'document': name, 'aspect': 'device-not-kept', 'class': job.get('mutation_kind')},
+                            'after PUT /%s device %s must be there with enabled=%s; got %s' % (name, nm, en, [(d.get('name'), d.get('enabled')) for d in got])))
+    # an entry that carries `provisioning` belongs to a slave: it must never come back as a local (virtual) port
+    if 'ports' in put and isinstance(res['sent'].get('ports'), list):
+        before_ids = {e.get('id') for e in res['mid']['ports'] if isinstance(e, dict)}
+        after_by_id = by_id(res['after']['ports'])
+        for e in res['sent']['ports']:
+            if isinstance(e, dict) and 'provisioning' in e and isinstance(e.get('id'), str) and e['id'] not in before_ids \
+                    and e['id'] in after_by_id and 'provisioning' not in after_by_id[e['id']]:
+                out.append(({'document': 'ports', 'aspect': 'slave-port-made-local'},
+                            'the entry %s carries `provisioning` (a slave\'s port) and the hub has no such port, yet after PUT /ports '
+                            'there is a local port %s' % (e['id'], e['id'])))
     # ports
     if 'ports' in put:
         o = put['ports']
